@@ -175,8 +175,14 @@ def projSubsetToCycles (svals : List Val) (subset : List Int) : List Val :=
 def projChainToCycles (cvals : List Val) (chain : List Nat) (subset : List Int) : List Val :=
   projSubsetToCycles (projChainToSubset cvals chain) subset
 
-/-- `vals[np.isnan(vals)] = -1` (the dtype=int route; values are integral there) -/
+/-- `vals[np.isnan(vals)] = -1` (then `astype(int)`, the identity on the integral values it is used for) -/
 def nanToMinusOne (v : List Val) : List Val := v.map fun | none => some (-1) | some x => some x
+
+/-- `float.astype(int)`: truncation toward zero -/
+def truncR (x : Rat) : Rat := ((x.num.tdiv (x.den : Int) : Int) : Rat)
+
+/-- the dtype=int route of `compute_chain_metric`: NaN becomes -1, then `astype(int)` -/
+def toIntVals (v : List Val) : List Val := v.map fun | none => some (-1) | some x => some (truncR x)
 
 /-- the `chain_ind` metric written by `pick_cycle_subset` -/
 def chainInd (subset : List Int) (chain : List Nat) : List Val :=
@@ -367,7 +373,7 @@ def computeChainMetric (s : State) (name : Name) (vals : List Rat) (f : List Rat
   | none => (s, .error .value)
   | some sel =>
     let v := projChainToCycles (chainStat f s.cv sel.subset sel.chain vals) sel.chain sel.subset
-    addMetric s name (if asInt then nanToMinusOne v else v)
+    addMetric s name (if asInt then toIntVals v else v)
 
 def computePositionInChain (s : State) : State × Except Err Out :=
   match s.sel with
